@@ -9,6 +9,7 @@ Check @struct_parse_complete.
 Check @interpretation_stable.
 Check @attribute_readings.
 Check @parsed_field_flags.
+Check @used_lifetimes_exact.
 Print Assumptions parse_complete.
 Print Assumptions option_is_recognised.
 Print Assumptions print_parse_roundtrip.
@@ -16,3 +17,4 @@ Print Assumptions struct_parse_complete.
 Print Assumptions interpretation_stable.
 Print Assumptions attribute_readings.
 Print Assumptions parsed_field_flags.
+Print Assumptions used_lifetimes_exact.
